@@ -98,7 +98,9 @@ def inputOf (c : Case) (st : FState) : Input :=
 
 partial def perms : List Nat → List (List Nat)
   | [] => [[]]
-  | l => if l.length > 4 then [l, l.reverse]
+  | l => if l.length > 5 then
+           -- too many orders to enumerate: every element first, the rest in stored and in reverse order
+           l.flatMap fun x => [x :: l.erase x, x :: (l.erase x).reverse]
          else l.flatMap fun x => (perms (l.erase x)).map (x :: ·)
 
 structure Ctx where
@@ -148,6 +150,7 @@ def isTerminal (s : Sys) : Bool :=
   | .err _ => true
   | .stopIter => s.running.isEmpty
   | .idle => s.running.isEmpty && s.stop
+  | .holdOn => s.running.isEmpty && s.stop
   | _ => false
 
 /-- the tasks with an action the model has started -/
@@ -155,7 +158,8 @@ def startedOf (s : Sys) : List Nat :=
   s.events.filterMap fun e => match e with | .start n => if actOf s n then some n else none | _ => none
 
 def acceptEnd (ctx : Ctx) (s : Sys) (v : List Ev) : Bool :=
-  isTerminal s && ctx.obsStarted.all ((startedOf s).contains ·) && errStr s.susp == ctx.obsErr && exitCode s == ctx.obsExit &&
+  isTerminal s && ctx.obsStarted.all ((startedOf s).contains ·) &&
+    (errStr s.susp == ctx.obsErr || (ctx.obsErr == "exit3" && errStr s.susp != "none")) && exitCode s == ctx.obsExit &&
     (match s.susp with
      | .err _ => (ctx.obs.drop v.length).all fun e => s.running.any fun m => e.reports m
      | _ => v.length == ctx.obs.length)
@@ -164,7 +168,8 @@ partial def dfs (ctx : Ctx) (s : Sys) : StateM (Nat × Nat × String) (Option Sy
   let (n, best, bs) ← get
   if n = 0 then return none
   let v := visOf ctx s
-  if !(v.isPrefixOf ctx.obs) || !((startedOf s).all (ctx.obsStarted.contains ·)) then
+  -- a task handed to a worker that is still in flight need not have started its action (the run may be aborted first)
+  if !(v.isPrefixOf ctx.obs) || !((startedOf s).all (fun n => ctx.obsStarted.contains n || s.running.contains n)) then
     set (n - 1, best, bs)
     return none
   if v.length ≥ best then set (n - 1, v.length, reprStr s.susp ++ " running=" ++ toString s.running ++ " stop=" ++ toString s.stop)
@@ -195,10 +200,18 @@ def normalMake (c : Case) : List (CId × Nat × List NewTask) :=
 /-- the dependency table the created tasks are judged by: task_deps of the loaded / placeholder tasks, and of every
     task a creator yields (with the implicit dependency on the producer of a file_dep) -/
 def depsAll (c : Case) (st : FState) (t : Nat) : List Nat :=
-  (match lookup0 st.tasks t with | some td => td.deps | none => []) ++
-    ((normalMake c).flatMap fun e => (e.2.2.filter (fun nt => nt.name == t)).flatMap fun nt =>
+  let created := (normalMake c).flatMap fun e => e.2.2.filter (fun nt => nt.name == t)
+  if created.isEmpty then
+    (match lookup0 st.tasks t with | some td => td.deps | none => [])
+  else
+    -- a created task: the `executed` trigger is a dependency of the placeholder, not of the task that replaces it
+    created.flatMap fun nt =>
       nt.deps ++ (nt.fileDep.filterMap fun f =>
-        ((normalMake c).findSome? fun e2 => (e2.2.2.find? (fun n2 => n2.targets.contains f)).map (·.name))))
+        ((normalMake c).findSome? fun e2 => (e2.2.2.find? (fun n2 => n2.targets.contains f)).map (·.name)))
+
+/-- for the closure of the selection: a name stands for the placeholder AND for the task that replaces it -/
+def depsClosure (c : Case) (st : FState) (t : Nat) : List Nat :=
+  (match lookup0 st.tasks t with | some td => td.deps | none => []) ++ depsAll c st t
 
 def closure (deps : Nat → List Nat) : Nat → List Nat → List Nat → List Nat
   | 0, _, acc => acc
@@ -247,8 +260,7 @@ def roots (c : Case) : List Nat :=
 /-- C15 `target` on an observed run (events oldest first) -/
 def targetOK (c : Case) (st? : Option FState) (obs : List Ev) (err : String) (exit : Nat) : Bool × String :=
   let stTasks : FState := st?.getD (fstate0 c.pre)
-  let deps := depsAll c stTasks
-  let allowed := closure deps 10000 (roots c) []
+  let allowed := closure (depsClosure c stTasks) 10000 (roots c) []
   let started := obs.filterMap fun e => match e with | .start n => some n | _ => none
   let outside := started.filter fun n => !allowed.contains n
   let ws := c.sel.getD []
@@ -258,7 +270,7 @@ def targetOK (c : Case) (st? : Option FState) (obs : List Ev) (err : String) (ex
   let failed := obs.any fun e => match e with | .failure _ => true | .unmet _ => true | _ => false
   let good (n : Nat) : Bool := obs.any fun e => e == .success n || e == .skipUtd n
   if !outside.isEmpty then (false, s!"executed outside the closure of the selection: {outside}")
-  else if !orphan.isEmpty && !failed && err != "notfound" then
+  else if !orphan.isEmpty && !failed && err != "notfound" && err != "exit3" then
     (false, s!"a target nobody produces was not reported as an error: {orphan.map (·.w)}")
   else if orphanM.isEmpty && err == "notfound" then (false, "not-found error although every target has a producer")
   else if exit == 0 && err == "none" &&
@@ -305,8 +317,8 @@ def handle (j : Json) : Json :=
     if op == "simulate" then Json.mkObj [("model", simJ), ("selected", ofNats st.selected)] else
     let (res, left, best, bestS) := (dfs ctx (init inp)).run (budget, 0, "")
     let startedOK := match res with
-      | some s => let ms := (s.events.filterMap fun e => match e with | .start n => if actOf s n then some n else none | _ => none)
-                  ms.all (startedObs.contains ·) && startedObs.all (ms.contains ·)
+      | some s => (startedOf s).all (fun n => startedObs.contains n || s.running.contains n) &&
+                  startedObs.all ((startedOf s).contains ·)
       | none => false
     let deps := depsAll c st
     let tgt := targetOK c (some st) obsAll obsErr obsExit
